@@ -34,6 +34,10 @@ check("C18", "exploration", "E", "exhaustive enumeration of every well-formed ev
       "All well-formed ranges up to the bound, in every listing order, are evaluated at every probe version for npm, Maven and PyPI and compared with two independent formulations of the OSV algorithm; one genuine defect found and fixed.",
       "Trusted: the 3-integer version comparator on the plain ladder; records are passed as structs (no JSON decoding). Don't-care: SEMVER ranges for Maven/PyPI, malformed lists, string-unequal version spellings in versions lists.", "DESIGN §5 C18")
 
+check("C05", "model_checking", "B", "explicit-state breadth-first search over layer histories; every state rebuilt as a real image, scanned by ScanContainer, attribution compared with a brute-force oracle over all views",
+      "All layer histories up to the depth bound over the operation alphabet (write each package subset, delete, delete parent, touch, empty history entry; one/two files; one/two extractors) are explored breadth-first with state deduplication on (views, diffs); every transition executes the real image loader and tracer.",
+      "Trusted: the state key captures everything attribution can depend on (sequence of per-view file contents, per-layer file-in-diff, empty-layer flags); oracle reads the implementation's own views (C04 checks those). Outside: depth > 5/7, >2 files, >3 packages per file, symlinked package files.", "DESIGN §5 C05")
+
 ALL = ["C%02d" % i for i in range(1, 21)]
 for p in ALL:
     if p not in CHECKS:
